@@ -1042,7 +1042,8 @@ package hashgraph
 // `ghostset` is the ghost code that maintains the view. coupled(): every entry of a cache is the view's entry for
 // that key (the caches may forget - eviction - but never invent or alter), and the counters agree.
 // Encapsulation (the store's internal objects are not reachable from its clients) is assumed.
-//@ ghost func (s *InmemStore) coupled() bool { return s.roundCache != nil && s.blockCache != nil && s.frameCache != nil && s.eventCache != nil && s.roundCache != s.blockCache && s.roundCache != s.frameCache && s.roundCache != s.eventCache && s.blockCache != s.frameCache && s.blockCache != s.eventCache && s.frameCache != s.eventCache && G_lastBlock(s) == s.lastBlock && s.roundsCoupled() && s.blocksCoupled() && s.framesCoupled() }
+//@ ghost func (s *InmemStore) coupled() bool { return s.roundCache != nil && s.blockCache != nil && s.frameCache != nil && s.eventCache != nil && s.roundCache != s.blockCache && s.roundCache != s.frameCache && s.roundCache != s.eventCache && s.blockCache != s.frameCache && s.blockCache != s.eventCache && s.frameCache != s.eventCache && G_lastBlock(s) == s.lastBlock && s.roundsCoupled() && s.blocksCoupled() && s.framesCoupled() && s.eventsCoupled() && s.participantEventsCache != nil && s.participantEventsCache.wf() }
+//@ ghost func (s *InmemStore) eventsCoupled() bool { return forall k string :: __in(interface{}(k), common.G_m(s.eventCache)) ==> __in(k, G_events(s)) && common.G_m(s.eventCache)[interface{}(k)] == interface{}(G_events(s)[k]) && G_events(s)[k] != nil }
 //@ ghost func (s *InmemStore) roundsCoupled() bool { return forall r int :: __in(interface{}(r), common.G_m(s.roundCache)) ==> __in(r, G_rounds(s)) && common.G_m(s.roundCache)[interface{}(r)] == interface{}(G_rounds(s)[r]) && G_rounds(s)[r] != nil && G_rounds(s)[r].CreatedEvents != nil }
 //@ ghost func (s *InmemStore) blocksCoupled() bool { return forall i int :: __in(interface{}(i), common.G_m(s.blockCache)) ==> __in(i, G_blocks(s)) && common.G_m(s.blockCache)[interface{}(i)] == interface{}(G_blocks(s)[i]) && G_blocks(s)[i] != nil && G_blocks(s)[i].Body.Index == i && G_blocks(s)[i].Signatures != nil }
 //@ ghost func (s *InmemStore) framesCoupled() bool { return forall i int :: __in(interface{}(i), common.G_m(s.frameCache)) ==> __in(i, G_frames(s)) && common.G_m(s.frameCache)[interface{}(i)] == interface{}(G_frames(s)[i]) && G_frames(s)[i] != nil && FrameWF(G_frames(s)[i]) }
@@ -1141,3 +1142,23 @@ package hashgraph
 //@   ensures[suffix]  pec.known(participant) && skipIndex <= pec.idx(participant).Last() && skipIndex+1 >= pec.idx(participant).Oldest() ==> ret1 == nil && len(ret0) == pec.idx(participant).Last() - skipIndex && (forall k int :: 0 <= k && k < len(ret0) ==> interface{}(ret0[k]) == pec.idx(participant).Items()[skipIndex+1+k-pec.idx(participant).Oldest()])
 //@   ensures[ahead]   pec.known(participant) && skipIndex > pec.idx(participant).Last() ==> ret1 == nil && len(ret0) == 0
 //@   loop 1 invariant[copy] 0 <= k && k <= len(pe) && len(res) == len(pe) && (forall j int :: 0 <= j && j < k ==> interface{}(res[j]) == pe[j])
+
+// Events (partial): the event cache never invents or alters an event - a read returns the event last written under
+// that hash or a not-found error, a refused write (unknown creator, skipped or too-late index) leaves the event
+// table exactly as it was, an accepted write changes only the entry of that hash. The clauses of Store.SetEvent /
+// GetEvent about heads, known-events counters and the repertoire are NOT verified against this implementation.
+//@ func (s *InmemStore) GetEvent(key string) (*Event, error)
+//@   requires s != nil && s.coupled()
+//@   modifies nothing
+//@   ensures[hit-view] ret1 == nil ==> ret0 != nil && __in(key, G_events(s)) && ret0 == G_events(s)[key]
+//@   ensures[miss]     !__in(key, G_events(s)) ==> ret1 != nil
+//@   ensures[err]      ret1 != nil ==> ret0 == nil && common.IsStore(ret1, common.KeyNotFound)
+
+//@ func (s *InmemStore) SetEvent(event *Event) error
+//@   ints checked
+//@   requires s != nil && s.coupled() && event != nil && event.Body.Index >= 0 && event.Body.Index < 4611686018427387904
+//@   modifies common.G_m(s.eventCache), any common.RollingIndex.items, any common.RollingIndex.lastIndex, G_events(s)
+//@   ghostset G_events(s) := __upd(G_events(s), HexOf(event), event) when ret0 == nil
+//@   ensures[events-on-success] ret0 == nil ==> __eq(G_events(s), __upd(old(G_events(s)), HexOf(event), event))
+//@   ensures[events-on-refusal] ret0 != nil ==> __eq(G_events(s), old(G_events(s)))
+//@   ensures[coupled] s.coupled()
